@@ -31,6 +31,11 @@ Op(e) ==
          /\ Report("NoValueWithoutPr", ~R => ~e.hasvalue)
          /\ Report("ShapeRule", ~R => (e.n = 1 /\ e.status # 0))        \* a value or an error status
          /\ UNCHANGED <<cur, subscribed>>
+    [] e.a = "GetterRead" ->       \* the value comes from the application's getter at the moment of the read
+         /\ Report("ReadsSeeLastWrite", R => (e.http = 200 /\ e.n = 1 /\ e.hasvalue /\ e.tok \in SetOf(e.rtoks) /\ e.tok \in SetOf(e.apptoks)))
+         /\ Report("NoValueWithoutPr", ~R => (~e.hasvalue /\ e.appnil))
+         /\ Report("ShapeRule", ~R => (e.n = 1 /\ e.status # 0))
+         /\ cur' = (IF R THEN e.tok ELSE cur) /\ UNCHANGED subscribed
     [] e.a = "AccRead" ->
          /\ Report("ReadsSeeLastWrite", e.http = 200 /\ e.n = 1 /\ (R => (e.hasvalue /\ cur \in SetOf(e.rtoks))))
          /\ Report("NoValueWithoutPr", ~R => ~e.hasvalue)
